@@ -95,6 +95,15 @@ def check_C05(sc, v, tier, seed, replay):
     _reject_to_violation(v, rejects, key)
 
 
+def _count_lemmas(sc, v):
+    """the NAS COUNT arithmetic at its real widths, for all 2^24 counter values x 256 gaps, discharged symbolically by Apalache"""
+    d = sc.specdir()
+    ok, txt = vlib.run_apalache(d, "NasCountLemma", "Lemmas")
+    if not ok:
+        raise HarnessError("NasCountLemma: the specification's own COUNT arithmetic violates its lemmas:\n" + txt[-1500:])
+    v.extra["apalache_NasCountLemma"] = "EstimateExact, EstimateFailsBeyond, AddOneIsSuccessor, FieldsRoundTrip hold for all 2^24 x 256 (COUNT, gap) pairs (SMT)"
+
+
 def _group_chunks(path, outdir, prefix, nchunks, start_ev="Start"):
     """Split a trace of several histories (each beginning with a Start event) into chunk files of whole histories."""
     hists, cur = [], []
@@ -155,6 +164,7 @@ def check_C06(sc, v, tier, seed, replay):
         raise HarnessError("MCNasSec: the specification itself violates its invariants or TLC failed: " + r.error)
     v.add_tlc([r])
     v.extra["mc_nassec_distinct_states"] = r.distinct
+    _count_lemmas(sc, v)
     # (2) binding: recorded uplink histories
     sc.build(["rec-nassec"])
     trace = os.path.join(sc.work, "nassec.ndjson")
@@ -206,6 +216,7 @@ def check_C10(sc, v, tier, seed, replay):
     import random
     import shutil
     rnd = random.Random(seed * 7919 + 10)
+    _count_lemmas(sc, v)
     sc.build(["rec-nassec"])
     r = sc.run("rec-nassec", ["dlmsgs", seed, 60])
     msgs = json.loads(r.stdout.strip().splitlines()[-1])
